@@ -305,6 +305,80 @@ def parse_fields(ctx):
         ctx.require(src == [f], q, 'Address(%s=...) is built from decoded fields %s, expected %s' % (k, src, f), fn,
                     'the parsed address re-encodes differently (a taproot address comes back as a version 0 address of the same program)' if k == 'witver' else 'the parsed Address does not describe the address string')
     ctx.saw('Address(...) arguments come from decoded fields %s' % got)
+    # an address whose prefix belongs to no known network has decoded network None: nothing may be substituted for it
+    consts = [s_ for s_ in subterms(('w', kw.get('network'))) if (isinstance(s_, str) and s_ not in ('decoded', 'network', 'cond', 'not', 'bool', 'or', 'and')) or (isinstance(s_, tuple) and s_ and s_[0] == 'global')]
+    ctx.require(not consts, q, 'the network of the parsed address can fall back to %s when the address belongs to no known network' % [show(c) for c in consts][:2], fn,
+                'a checksum-valid string with an unknown version byte / prefix parses as a bitcoin address')
+
+
+@PROP.obligation('C05.bare-program', canaries=[
+    mut.replace_expr('encoding', 'pubkeyhash_to_addr_bech32', 'len(pubkeyhash) not in [20, 32, 40]', 'len(pubkeyhash) not in [20, 32, 40] or (81 <= pubkeyhash[0] <= 96 and pubkeyhash[1] == len(pubkeyhash) - 2)', 'bare witness programs sniffed for a script prefix'),
+])
+def bare_program(ctx):
+    """encoding.pubkeyhash_to_addr_bech32 given a bare witness program of 20 / 32 / 40 bytes: evaluated with the length test decided that
+    way and the program symbolic, no branch decision and not the witness version may depend on the BYTES of the program - a payload whose
+    first bytes happen to look like `OP_n <len>` must not be stripped and re-versioned."""
+    q = 'encoding:pubkeyhash_to_addr_bech32'
+    fn = ctx.repo.func(q)
+
+    def decide(t):
+        if isinstance(t, tuple) and t[0] == 'cmp' and t[1] in ('not in', 'in') and isinstance(t[2], tuple) and t[2][0] == 'len' and isinstance(t[3], tuple) and set(t[3][1:]) == {20, 32, 40}:
+            return t[1] == 'in'
+        return None
+    it = Interp(ctx.repo, 'encoding', decide=decide)
+    exits = it.run_function(fn, {'pubkeyhash': S(('var', 'pubkeyhash'), 'bytes'), 'prefix': 'bc', 'witver': S(('var', 'witver'), 'int'), 'separator': '1', 'checksum_xor': 1})
+    rets = [e for e in exits if e.kind == 'return']
+    if not rets:
+        ctx.undecided('pubkeyhash_to_addr_bech32: no return path for a bare program')
+
+    def content_reads(t):
+        out = []
+        for s_ in subterms(('w', t)):
+            if isinstance(s_, tuple) and s_ and s_[0] == 'index' and isinstance(s_[2], int) and 'pubkeyhash' in show(s_[1]):
+                out.append(s_)
+        return out
+    bad = []
+    for e in exits:
+        for t, pol in e.pc:
+            bad += content_reads(t)
+    ctx.saw('bare program: %d exits, decisions that read bytes of the program: %s' % (len(exits), sorted(set(show(b)[:60] for b in bad))))
+    if bad:
+        ctx.violate(q, 'for a bare 20 / 32 / 40 byte program a branch decision reads %s of the payload' % sorted(set(show(b)[:40] for b in bad))[0], fn,
+                    'a P2WPKH / P2WSH payload that starts with `51..60 <len-2>` is stripped of two bytes and encoded with another witness version')
+    # the version that is encoded: the witver argument (or its bech32m default), never a byte of the program
+    for e in rets:
+        t = term(e.value)
+        ver = [s_ for s_ in subterms(('w', t)) if isinstance(s_, tuple) and s_ and s_[0] == 'binop' and s_[1] == '-' and s_[3] == 0x50]
+        ctx.require(not ver, q, 'the witness version of a bare program is computed from its first byte', fn)
+
+
+@PROP.obligation('C05.address-obj-args', canaries=[
+    mut.replace_expr('transactions', 'Output.address_obj', 'Address(hashed_data=self.public_hash, script_type=self.script_type, witver=self.witver, encoding=self.encoding, network=self.network)',
+                     'Address(hashed_data=self.public_hash, script_type=self.script_type, witness_type=self.witness_type, witver=self.witver, encoding=self.encoding, network=self.network)', 'witness_type hint passed to the lazily built Address'),
+])
+def address_obj_args(ctx):
+    """Output.address_obj builds the reported address from the output's own payload, script type, witness version, encoding and network -
+    and from nothing else. Address.__init__ derives the witness type (and for p2tr the version 1 default, for p2sh-segwit the redeem
+    script wrapping) only when no witness_type is passed, so handing it the output's witness_type hint makes a p2tr output built from a
+    hash report a bc1q (version 0) address and a hinted P2SH output the address of another hash."""
+    q = 'transactions:Output.address_obj'
+    fn = ctx.repo.func(q)
+    calls = [c for c in ast.walk(fn) if isinstance(c, ast.Call) and norm(c.func) == 'Address']
+    if len(calls) != 1:
+        ctx.undecided('Output.address_obj: construction of the Address not found')
+    kw = {k.arg: norm(k.value) for k in calls[0].keywords}
+    ctx.saw('Address(%s)' % ', '.join('%s=%s' % kv for kv in sorted(kw.items())))
+    want = {'hashed_data': 'self.public_hash', 'script_type': 'self.script_type', 'witver': 'self.witver', 'encoding': 'self.encoding', 'network': 'self.network'}
+    for k, v in want.items():
+        if k not in kw:
+            ctx.violate(q, 'the Address of an output is built without %s' % k, calls[0], 'the reported address does not correspond to the locking script')
+        else:
+            ctx.match(q, 'argument %s of the output Address' % k, [x.value for x in calls[0].keywords if x.arg == k][0], v, fn, calls[0])
+    extra = sorted(set(kw) - set(want))
+    if extra:
+        ctx.violate(q, 'the Address of an output additionally receives %s: Address.__init__ then skips its own derivation of witness type / version' % extra, calls[0],
+                    "Output(value, public_hash=h32, script_type='p2tr') carries 5120<h32> but reports a bc1q (version 0) address")
+    ctx.require(not calls[0].args, q, 'positional arguments in the Address construction', calls[0])
 
 
 @PROP.obligation('C05.payload', canaries=[
